@@ -87,11 +87,16 @@ func (e *Engine) verifyContract(ct *Contract) (res *FnResult) {
 		c := S.Fresh(fv.Name(), SInt)
 		if pt, ok := t.Underlying().(*types.Pointer); ok && !isStruct(pt.Elem()) {
 			fc.vals[fv] = Val{T: c, P: &Ptr{Root: RCell, Ref: c, Elem: pt.Elem()}}
+			// in contracts the captured variable is named by its content at entry
+			content := S.Define(fv.Name()+".val", Select(fc.heapGet(st, te.CellHeap(pt.Elem())), c))
+			fc.assumeWF(st, content, pt.Elem(), "captured "+fv.Name())
+			fc.params[fv.Name()] = tv(content)
+			fc.paramTy[fv.Name()] = pt.Elem()
 		} else {
 			fc.vals[fv] = tv(c)
+			fc.params[fv.Name()] = fc.vals[fv]
+			fc.paramTy[fv.Name()] = t
 		}
-		fc.params[fv.Name()] = fc.vals[fv]
-		fc.paramTy[fv.Name()] = t
 		S.Assume(And(app(SBool, ">", c, IntLit(0)), app(SBool, "<", c, fc.heapGet(st, nextVar))), "captured variable")
 	}
 	fc.entry = st
@@ -147,6 +152,44 @@ func (e *Engine) verifyContract(ct *Contract) (res *FnResult) {
 			}
 			ob := fc.oblige(exit, "ensures", lab, "", t, cl.Src)
 			ob.Known = cl.Known
+		}
+	}
+	// refinement: the function also satisfies the postconditions of the interface method it implements
+	if ik := ct.Opts["implements"]; ik != "" {
+		ict := e.CS.ByKey[ct.PkgPath+"."+ik]
+		if ict == nil {
+			ict = e.CS.ByKey[ik]
+		}
+		if ict == nil {
+			panic(unsupported{"implements: no interface contract " + ik})
+		}
+		ienv := *penv
+		ienv.Vars = map[string]TVal{}
+		for k, v := range penv.Vars {
+			ienv.Vars[k] = v
+		}
+		ienv.Macros = map[string]SExpr{}
+		for _, l := range ict.Lets {
+			ienv.Macros[l.Name] = l.Expr
+		}
+		// interface parameter names, by position (receiver excluded)
+		if obj, _, _ := types.LookupFieldOrMethod(fn.Signature.Recv().Type(), true, fn.Pkg.Pkg, fn.Name()); obj != nil {
+			_ = obj
+		}
+		isig := e.ifaceSig(ct.PkgPath, ik)
+		if isig != nil {
+			for i := 0; i < isig.Params().Len() && i+1 < len(fn.Params); i++ {
+				p := fn.Params[i+1]
+				ienv.Vars[isig.Params().At(i).Name()] = TVal{T: fc.vals[p].T, Ty: p.Type()}
+			}
+		}
+		ienv.Vars["self"] = TVal{T: fc.TE.Box(fn.Params[0].Type(), fc.vals[fn.Params[0]].T)}
+		for _, cl := range ict.Ensures {
+			if strings.HasPrefix(cl.Label, "env-") {
+				continue
+			}
+			t := fc.evalClause(&ienv, cl)
+			fc.oblige(exit, "ensures", "implements "+ik+"."+cl.Label, "", t, cl.Src)
 		}
 	}
 	// frame obligations
@@ -325,6 +368,31 @@ func (e *Engine) lemmaFormula(fc *FnCtx, ct *Contract, indVar string, bound Term
 		}
 	}()
 	return t
+}
+
+// ifaceSig: the signature of interface method "(I).M" declared in package pkgPath.
+func (e *Engine) ifaceSig(pkgPath, key string) *types.Signature {
+	if !strings.HasPrefix(key, "(") {
+		return nil
+	}
+	i := strings.Index(key, ").")
+	if i < 0 {
+		return nil
+	}
+	iname, mname := key[1:i], key[i+2:]
+	p := e.P.ByPath[pkgPath]
+	if p == nil {
+		return nil
+	}
+	obj := p.Types.Scope().Lookup(iname)
+	if obj == nil {
+		return nil
+	}
+	m, _, _ := types.LookupFieldOrMethod(obj.Type(), true, p.Types, mname)
+	if f, ok := m.(*types.Func); ok {
+		return f.Type().(*types.Signature)
+	}
+	return nil
 }
 
 func (e *Engine) anyFnOf(pkgPath string) *ssa.Function {
